@@ -99,8 +99,58 @@ def privkey_pubkey(alg, sub):
     return Scenario(label, cls + '.pubkey', gen, props=('C07', 'C18'))
 
 
+def privkey_pubkey_opaque(sub):
+    """an algorithm PGPy loads but does not implement (X9.42 DH, id 21): the secret key packet keeps ALL its material as one octet string (public
+    and secret integers together), so nothing of that string may reach the public packet derived from it"""
+    label = 'C07/PrivKeyV4.pubkey[unimplemented algorithm%s]' % (',subkey' if sub else '')
+    cls = 'pgpy.packet.packets.PrivSubKeyV4' if sub else 'pgpy.packet.packets.PrivKeyV4'
+
+    def gen(repo):
+        r = scn.Run(repo, cls, 'pubkey', label)
+        ex, st = r.ex, r.st
+        me = E.VObj(cls, 'secret')
+        km = E.VObj('pgpy.packet.fields.OpaquePrivKey', 'skm')
+        r.set('secret', 'keymaterial', km)
+        r.set('secret', '_pkalg', E.VInt(21, enum='pgpy.constants.PubKeyAlgorithm'))
+        created = E.VExt('datetime', ())
+        r.set('secret', '_created', created)
+        RAW = z3.Const('SECRET_RAW_MATERIAL_OCTETS', E.BYTES)
+        r.set('skm', 'data', ex.new_buf(st, RAW))
+        r.set('skm', 's2k', E.VObj('pgpy.packet.fields.String2Key', 's2k'))
+        r.set('skm', 'encbytes', ex.new_buf(st, z3.Const('SECRET_ENCBYTES', E.BYTES)))
+        r.set('skm', 'chksum', ex.new_buf(st, z3.Const('SECRET_CHKSUM', E.BYTES)))
+        r.hook('pgpy.packet.types.VersionedPacket', '__init__', scn.mconst(E.VNone()))
+        r.hook('pgpy.packet.types.Packet', '__init__', scn.mconst(E.VNone()))
+        r.hook('pgpy.packet.types.Packet', 'update_hlen', scn.mconst(E.VNone()))
+        r.hook('pgpy.packet.types.VersionedPacket', 'update_hlen', scn.mconst(E.VNone()))
+        for pi, (s, v) in enumerate(r.call(me, [])):
+            if isinstance(v, E.Raise):
+                r.oblige(s, 'safety(%s)/p%d' % (v.exc.split(':')[0], pi), z3.BoolVal(False), v.where)
+                continue
+            want_cls = 'pgpy.packet.packets.PubSubKeyV4' if sub else 'pgpy.packet.packets.PubKeyV4'
+            ok = isinstance(v, E.VObj) and v.cls == want_cls
+            r.oblige(s, 'is-a-public-%skey-packet/p%d' % ('sub' if sub else '', pi), z3.BoolVal(ok))
+            if not ok:
+                continue
+            pkm = s.heap.get((v.ref, 'keymaterial'))
+            okm = isinstance(pkm, E.VObj) and pkm.cls == 'pgpy.packet.fields.OpaquePubKey'
+            r.oblige(s, 'material-is-the-opaque-public-class/p%d' % pi, z3.BoolVal(bool(okm)))
+            if not okm:
+                continue
+            ref = ('sym:' + str(z3.simplify(pkm.ref))) if z3.is_expr(pkm.ref) else pkm.ref
+            leak = []
+            for k, fv in s.heap.items():
+                if isinstance(k, tuple) and len(k) == 2 and k[0] == ref:
+                    txt = str(ex.seq(fv, s)) if isinstance(fv, (E.VBuf, E.VBytes)) else str(getattr(fv, 'z', ''))
+                    if 'SECRET_' in txt:
+                        leak.append(k[1])
+            r.oblige(s, 'no-octet-of-the-secret-packet-material-flows-into-the-public-material[%s]/p%d' % (','.join(leak), pi), z3.BoolVal(not leak))
+        return r.result()
+    return Scenario(label, cls + '.pubkey', gen, props=('C07', 'C18'))
+
+
 def scenarios():
-    out = []
+    out = [privkey_pubkey_opaque(False), privkey_pubkey_opaque(True)]
     for alg in PUBF:
         out.append(privkey_pubkey(alg, False))
     out.append(privkey_pubkey(1, True))
